@@ -435,7 +435,11 @@ fn extreme31(rng: &mut Rng) -> Vec<u8> {
     let mut body = vec![0u8; 32];
     body[0..4].copy_from_slice(b"KDMX");
     body[4..8].copy_from_slice(&rng.u32().to_be_bytes());
-    body[8..10].copy_from_slice(&rng.u16().to_be_bytes());
+    let date: u16 = match rng.below(4) {
+        0 => *rng.pick(&[0u16, 1, 65_535]),
+        _ => rng.u16(),
+    };
+    body[8..10].copy_from_slice(&date.to_be_bytes());
     body[20] = rng.u8();
     body[21] = rng.u8();
     body[22] = rng.u8();
